@@ -241,6 +241,47 @@ pub fn check_case(mv: &MV, pi: usize, sched: &Sched) -> CaseResult {
                                 format!("{} returned Ok although the sink failed at offset {} of {:?} (delivered {:?})", ENTRIES[entry], off, clip(s, 200), bytes_lossy(&sink.buf)),
                             ));
                         }
+                        // a Printer stays usable after a failed print: once the sink
+                        // works again, the next value comes out as it would from a
+                        // fresh printer (no option or state left half-changed)
+                        if entry == 3 && off < sb.len() && res.is_err() && (off % 3 == 0 || sb.len() < 24) {
+                            struct Shared(std::rc::Rc<std::cell::RefCell<Sink>>);
+                            impl Write for Shared {
+                                fn write(&mut self, d: &[u8]) -> io::Result<usize> {
+                                    self.0.borrow_mut().write(d)
+                                }
+                                fn write_vectored(&mut self, b: &[io::IoSlice<'_>]) -> io::Result<usize> {
+                                    self.0.borrow_mut().write_vectored(b)
+                                }
+                                fn flush(&mut self) -> io::Result<()> {
+                                    Ok(())
+                                }
+                            }
+                            let cell = std::rc::Rc::new(std::cell::RefCell::new(Sink::new(sched, Some(off))));
+                            let mut pr = Printer::with_options(Shared(cell.clone()), p.to_lexpr());
+                            let first = pr.print(&v);
+                            {
+                                let mut k = cell.borrow_mut();
+                                k.err_at = None;
+                                k.buf.clear();
+                            }
+                            let second = pr.print(&v);
+                            evals += 1;
+                            let delivered = cell.borrow().buf.clone();
+                            if first.is_ok() || second.is_err() || delivered != sb {
+                                return Err((
+                                    format!("entry=Printer-reused-after-error token={}", token_kind_at(sb, off)),
+                                    format!(
+                                        "after a print that failed at offset {} the same Printer printed the value again into the recovered sink as {:?} (results {:?}/{:?}), a fresh one prints {:?}",
+                                        off,
+                                        bytes_lossy(&delivered),
+                                        first.is_ok(),
+                                        second.is_ok(),
+                                        clip(s, 200)
+                                    ),
+                                ));
+                            }
+                        }
                         if off == sb.len() && (res.is_err() || sink.buf != sb) {
                             return Err((
                                 format!("entry={} fault=none-reached", ENTRIES[entry]),
